@@ -135,6 +135,26 @@ Theorem C09_open_report_floor : forall (s : orders) (o : op) (T : Z) (m : meta),
 Proof. exact open_report_floor. Qed.
 Print Assumptions C09_open_report_floor.
 
+(** Any run of open reports with a non-zero remaining quantity (something left, or over-filled)
+    about a tracked id holding open data at least as recent as T leaves it tracked with data at
+    least as recent as T ... *)
+Theorem C09_open_reports_floor_run : forall (ops : list op) (s : orders) (c T t0 : Z),
+  ts s c = Some t0 -> T <= t0 ->
+  Forall (fun o => cid_of o = c /\ open_report o <> None) ops ->
+  exists t', ts (run ops s) c = Some t' /\ T <= t'.
+Proof. exact open_reports_floor_run. Qed.
+Print Assumptions C09_open_reports_floor_run.
+
+(** ... in particular after an OVER-FILLED open report (filled > quantity: the remaining quantity
+    is negative, not zero, so the order stays tracked and its timestamp is remembered): no open
+    report delivered later, however old, rolls the held details back before it. *)
+Theorem C09_overfilled_no_rollback : forall (s : orders) (sn : osnap) (m : meta) (ops : list op),
+  o_state sn = SA (Open m) -> rem (o_qty sn) m < 0 ->
+  Forall (fun o => cid_of o = k_cid (o_key sn) /\ open_report o <> None) ops ->
+  exists t', ts (run ops (step s (Snap sn))) (k_cid (o_key sn)) = Some t' /\ m_time m <= t'.
+Proof. exact overfilled_no_rollback. Qed.
+Print Assumptions C09_overfilled_no_rollback.
+
 (** The run-time oracle is no stricter than the model: on every correspondence case where the
     model reproduces the observed engine states, they satisfy the oracle after every event. *)
 Theorem C09_oracle_sound : forall c : case, corr_b c = true -> prop_b c = true.
